@@ -22,8 +22,14 @@ Totality part
   trees in memory and on disk, string / f-string literals whose body is every sequence of
   <= 3 ingredients (plain and multi-byte text, valid and invalid escapes, doubled curlies,
   interpolations; terminated or not), "infinite type" programs (an inference variable unified
-  with a term containing it under <= 3 list / record / Option / enum wrappers).  For the last
-  two MCTotality also prints what must happen: a report (never a package), and for a literal
+  with a term containing it under <= 3 list / record / Option / enum wrappers), import
+  statements, type paths (every path of <= 2 / 3 segments over the declared names of a small
+  package - generic types and their type parameters, fields, variants, a function, a constant,
+  a module, an imported type, built-in types - with and without type arguments, at each of the
+  10 places where a type is written) and layered reference graphs inside the supported program
+  size (w items per layer, d layers, every item refers to every item of the next layer: w^d
+  paths through w * d <= 80 one-line items; calls below a constant / a function, constants,
+  record types).  For lit and inf MCTotality also prints what must happen: a report (never a package), and for a literal
   whose first invalid escape is self-contained the exact byte range the report must cite.  Python renders each descriptor to source text / files (pure
   representation mapping), worker processes compile them with the real crate and render the
   report with and without colour; the recorded events must be behaviours of Totality
@@ -718,6 +724,133 @@ IMPORTS = ["import a.f;", "import a.b;", "import b.f;", "import b.g;", "import a
 IMP_PLACES = ["pkg", "submodule", "fn_body"]
 
 
+# ---- type paths ------------------------------------------------------------------------------------
+# A small package that declares one name of every kind; a type is then written, at every place where the
+# grammar has a type, as a path over those names (<= tplen segments) with or without type arguments.
+TP_ROOT = ("import m.Imp;\n"
+           "record Box[T] { value: T }\n"
+           "enum Maybe[T] { Just(T), Nothing }\n"
+           "record Rec { field: i32 }\n"
+           "enum Plain { Variant(i32), Other }\n"
+           "const K: i32 = 1;\n"
+           "fn fun(a: i32) -> i32 { a }\n")
+TP_MOD = "record Inner { z: i32 }\nrecord Imp { w: i32 }\nrecord Gen[U] { u: U }\nfn mfun() -> i32 { 1 }\n"
+# (segment, kind): the kind is what MCTotality reasons about ("type": may name a type; "param": a type parameter;
+# "value": a field, variant, function, constant, module, keyword-like root or undeclared name: never a type)
+TP_NAMES = [("Box", "type"), ("Maybe", "type"), ("T", "param"), ("Rec", "type"), ("Plain", "type"), ("value", "value"),
+            ("field", "value"), ("Just", "value"), ("Variant", "value"), ("fun", "value"), ("K", "value"), ("m", "value"),
+            ("Inner", "type"), ("Imp", "type"), ("Gen", "type"), ("i32", "type"), ("Option", "type"), ("List", "type"),
+            ("pkg", "value"), ("super", "value"), ("nope", "value"), ("U", "param")]
+# names whose type takes arguments (the longer argument forms are enumerated below them in the quick tier)
+TP_GENERIC = ["Box", "Maybe", "T", "Gen", "Option", "List"]
+# names that have members: the paths of 3 segments (thorough tier) start with one of them
+TP_HEADS = ["pkg", "super", "m", "Box", "Maybe", "Gen", "Plain", "T"]
+# where the arguments go: nowhere / after the last segment / after the first segment (`Box[i32].T`)
+# (the first TP_ARGS_FULL forms are combined with every path in both tiers)
+TP_ARGS = [("plain", None, None), ("applied", "[i32]", None), ("applied_mid", None, "[i32]"), ("optional", "?", None),
+           ("applied2", "[i32, i32]", None), ("applied_param", "[T]", None), ("applied_nested", "[Box[i32]]", None)]
+TP_ARGS_FULL = 4
+# every place where a type is written (the rest of the place is a valid program when the type is `i32`)
+TP_PLACES = [("let", "fn p() { let x: %s = 1; }"),
+             ("param", "fn p(x: %s) {}"),
+             ("ret", "fn p(x: i32) -> %s { p(x) }"),
+             ("field", "record Q { inner: %s }\nfn p(q: Q) {}"),
+             ("payload", "enum QE { V(%s), N }\nfn p(q: QE) {}"),
+             ("type_arg", "fn p(x: List[%s]) {}"),
+             ("const", "const Q: %s = 1;"),
+             ("generic_field", "record G[T] { inner: %s }\nfn p(g: G[i32]) {}"),
+             ("anon_field", "fn p(x: { a: %s }) {}"),
+             ("filtermap_param", "filtermap fm(x: %s) { accept }")]
+
+
+def tpath_text(p):
+    af, segs = p[1], [TP_NAMES[i - 1][0] for i in p[2:]]
+    _, end, mid = TP_ARGS[af - 1]
+    return segs[0] + (mid or "") + "".join("." + s for s in segs[1:]) + (end or "")
+
+
+def render_tpath(p):
+    pname, tmpl = TP_PLACES[p[0] - 1]
+    ty = tpath_text(p)
+    spec = {"name": "pkg.roto", "module": "pkg", "src": TP_ROOT + tmpl % ty + "\n", "dir": True,
+            "children": [{"name": "m.roto", "module": "m", "src": TP_MOD}]}
+    used = ["tpname_" + TP_NAMES[i - 1][0] for i in p[2:]] + ["tparg_" + TP_ARGS[p[1] - 1][0], "tplen%d" % len(p[2:])]
+    return {"k": "spec", "spec": spec}, "tpath:" + pname, used
+
+
+# ---- wide and deep reference graphs -------------------------------------------------------------------
+# d layers of w items; every item of layer i refers to every item of layer i + 1 (w ** d paths, w * d items:
+# inside the supported program size, no nesting, no recursion).  The calls sit in a branch that is not taken when
+# the constant's initialiser is run by the compiler.
+def _layer_fns(w, d, leaf):
+    out = []
+    for i in range(d):
+        for j in range(w):
+            calls = " + ".join("f%d_%d(deep)" % (i + 1, (j + k) % w) for k in range(w))
+            out.append("fn f%d_%d(deep: bool) -> u64 { if deep { %s } else { %d } }" % (i, j, calls, j))
+    out += ["fn f%d_%d(deep: bool) -> u64 { %s }" % (d, j, leaf % j) for j in range(w)]
+    return out
+
+
+def graph_calls_below_const(w, d):
+    return ["const C: u64 = f0_0(false);"] + _layer_fns(w, d, "%d") + ["fn main() -> u64 { C }"]
+
+
+def graph_calls_below_fn(w, d):
+    return _layer_fns(w, d, "%d") + ["fn main() -> u64 { f0_0(false) }"]
+
+
+def graph_const_layers(w, d):
+    out = []
+    for i in range(d):
+        for j in range(w):
+            out.append("const C%d_%d: u64 = %s;" % (i, j, " + ".join("C%d_%d" % (i + 1, (j + k) % w) for k in range(w))))
+    out += ["const C%d_%d: u64 = %d;" % (d, j, j) for j in range(w)]
+    return out + ["fn main() -> u64 { C0_0 }"]
+
+
+def graph_calls_to_const_leaf(w, d):
+    return (["const K: u64 = 1;", "const C: u64 = f0_0(false);"] + _layer_fns(w, d, "K + %d") +
+            ["fn main() -> u64 { C + f0_%d(false) }" % (w - 1)])
+
+
+def graph_record_layers(w, d):
+    out = []
+    for i in range(d):
+        for j in range(w):
+            out.append("record R%d_%d { %s }" % (i, j, ", ".join("a%d: List[R%d_%d]" % (k, i + 1, (j + k) % w) for k in range(w))))
+    out += ["record R%d_%d { v: u64 }" % (d, j) for j in range(w)]
+    return out + ["fn main(r: R0_0) -> u64 { r.a0.len() }"]
+
+
+def graph_generic_layers(w, d):
+    out = ["record G[%s] { %s }" % (", ".join("T%d" % k for k in range(w)), ", ".join("x%d: List[T%d]" % (k, k) for k in range(w)))]
+    for i in range(d):
+        for j in range(w):
+            out.append("record R%d_%d { g: G[%s] }" % (i, j, ", ".join("R%d_%d" % (i + 1, (j + k) % w) for k in range(w))))
+    out += ["record R%d_%d { v: u64 }" % (d, j) for j in range(w)]
+    return out + ["fn main(r: R0_0) -> u64 { r.g.x0.len() }"]
+
+
+GRAPHS = [("calls_below_const", graph_calls_below_const), ("calls_below_fn", graph_calls_below_fn),
+          ("const_layers", graph_const_layers), ("calls_to_const_leaf", graph_calls_to_const_leaf),
+          ("record_layers", graph_record_layers), ("generic_layers", graph_generic_layers)]
+GRAPH_WIDTHS = 3
+# widest layer per shape.  (On the pinned tree layered record types with w >= 2 took exponential time: TypeInfo::convert
+# expanded every named type once per path - w = 2: d = 16 0.7 s, d = 20 6 s, d = 24 > 10 s.  Found by this family, repaired
+# by a fix: commit, F-C06-type-convert-exponential; until then the two record shapes were enumerated as chains only.)
+GRAPH_SHAPE_WIDTH = {"calls_below_const": 3, "calls_below_fn": 3, "const_layers": 3, "calls_to_const_leaf": 3,
+                     "record_layers": 3, "generic_layers": 3}
+GRAPH_DEPTHS = [2, 4, 8, 12, 16, 20, 24, 32, 40]
+GRAPH_MAXITEMS = 80     # w * d <= 80 items below the root (+ w leaves): a script of < 100 one-line items
+
+
+def render_graph(p):
+    name, fn = GRAPHS[p[0] - 1]
+    w, d = p[1], p[2]
+    return {"k": "src", "src": "\n".join(fn(w, d)) + "\n"}, "graph:" + name, ["graph_w%d" % w, "graph_d%d" % d]
+
+
 def render_imp(p):
     place, stmts = IMP_PLACES[p[0] - 1], [IMPORTS[i - 1] for i in p[1:]]
     text = " ".join(stmts)
@@ -783,6 +916,16 @@ def families(tier):
     lit = {"ing": [{"w": len(t.encode("utf-8")), "cls": c} for t, c in INGREDIENTS], "litlen": 3,
            "litfull": 0 if tier == "quick" else 1, "nlitpre": len(LIT_PREFIXES), "ninfvar": len(INF_VARS), "nwrap": len(INF_WRAPPERS), "infdepth": 3,
            "nimp": len(IMPORTS), "implen": 2 if tier == "quick" else 3, "nimpplace": len(IMP_PLACES)}
+    names = [n for n, _ in TP_NAMES]
+    # quick: every path of <= 2 segments, the longer argument forms below the generic names only;
+    # thorough: every argument form with every path of <= 2 segments, the plain paths of 3 segments below TP_HEADS
+    lit.update({"ntplace": len(TP_PLACES), "ntparg": len(TP_ARGS), "ntpname": len(TP_NAMES),
+                "tpgeneric": [names.index(n) + 1 for n in TP_GENERIC], "tphead": [names.index(n) + 1 for n in TP_HEADS],
+                "tpargfull": TP_ARGS_FULL if tier == "quick" else len(TP_ARGS),
+                "tplen": 2 if tier == "quick" else 3, "tplenfull": 2})
+    lit.update({"ngshape": len(GRAPHS), "gwidth": GRAPH_WIDTHS, "gshapew": [GRAPH_SHAPE_WIDTH[n] for n, _ in GRAPHS],
+                "gdepths": GRAPH_DEPTHS if tier == "quick" else sorted(set(GRAPH_DEPTHS + list(range(1, 41)))),
+                "gmaxitems": GRAPH_MAXITEMS})
     return {**lit, "ntok": len(TOKENS), "small": small, "plans": plans, "seeds": seeds, "replace": replace, "nsym": len(ALPHA),
             "ill": [len(m) for _, m in groups], "nnest": len(NEST), "depths": DEPTHS,
             "nslot": len(SLOTS), "maxfiles": maxfiles, "ncontent": len(CONTENTS)}
@@ -892,6 +1035,10 @@ def render_descriptor0(d, root_dir):
         return render_inf(p)
     if fam == "imp":
         return render_imp(p)
+    if fam == "tpath":
+        return render_tpath(p)
+    if fam == "graph":
+        return render_graph(p)
     if fam == "seq":
         return render_seq(p)
     if fam == "mut":
@@ -1100,17 +1247,51 @@ def totality(tier, ev, verd, stats):
     # every outcome class was observed
     need_fams = (["seq:" + c for c, _ in CTXS] + ["mut:" + m for m in MUT_OPS.values()] +
                  ["ill:" + g for g, _ in ill_groups()] + ["nest:" + n for n, _ in NEST] + ["tree:disk", "tree:mem"] +
-                 ["lit:string", "lit:fstring"] + ["inf:" + v for v, _, _ in INF_VARS] + ["imp:" + x for x in IMP_PLACES])
+                 ["lit:string", "lit:fstring"] + ["inf:" + v for v, _, _ in INF_VARS] + ["imp:" + x for x in IMP_PLACES] +
+                 ["tpath:" + x for x, _ in TP_PLACES] + ["graph:" + x for x, _ in GRAPHS])
     missing = [f for f in need_fams if not fam_count.get(f)]
     missing += [t for t, _ in TOKENS if not used_count.get(t)] + [a for a in ALPHA if not used_count.get(a)]
     missing += [sl for sl in SLOTS if not used_count.get(sl)] + [c for c, _ in CONTENTS if not used_count.get(c)]
     missing += [t for t, _ in INGREDIENTS if not used_count.get(t)] + [w for w, _ in INF_WRAPPERS if not used_count.get(w)]
     missing += [t for t in IMPORTS if not used_count.get(t)]
+    # type paths: every declared name, every argument form, paths of every length up to the bound; graphs: every width,
+    # the deepest graph of the tier
+    fam_now = families(tier)
+    missing += [u for u in ["tpname_" + n for n, _ in TP_NAMES] + ["tparg_" + a for a, _, _ in TP_ARGS] +
+                ["tplen%d" % k for k in range(1, fam_now["tplen"] + 1)] +
+                ["graph_w%d" % w for w in range(1, GRAPH_WIDTHS + 1)] + ["graph_d%d" % max(GRAPH_DEPTHS)]
+                if not used_count.get(u)]
     if missing:
         raise vlib.ToolError("input families / operators / token kinds never generated: %s" % missing)
     for need in ("ok", "err:parse", "err:type", "err:read"):
         if not outcomes.get(need):
             raise vlib.ToolError("outcome class %s never observed (vacuous run): %s" % (need, outcomes))
+    # the new families are not vacuous: at every place a well-formed type path compiles (the rest of the place is a
+    # valid program, so the path is what is judged) and an ill-formed one is reported by the type checker; the `Generic.Param`
+    # paths were generated at every place; a graph of every shape compiles (it is a valid program, the graph is
+    # really built); the widest-and-deepest graphs below a constant are among the cases
+    byfam = totals.get("by_family", {})
+    for pl, _ in TP_PLACES:
+        o = byfam.get("tpath:" + pl, {})
+        if not o.get("ok") or not o.get("err:type"):
+            raise vlib.ToolError("type paths at place %s: no path compiled / none was rejected by the type checker: %s" % (pl, o))
+    for g, _ in GRAPHS:
+        o = byfam.get("graph:" + g, {})
+        if not o.get("ok") and not any(k in o for k in ("hang", "panic")) and not any(k.startswith("crash") for k in o):
+            raise vlib.ToolError("reference graphs of shape %s never compiled: %s" % (g, o))
+    nparam = sum(1 for dsc in descs if dsc["fam"] == "tpath" and tpath_text(dsc["p"]) in ("Box.T", "Maybe.T"))
+    ndeep = sum(1 for dsc in descs if dsc["fam"] == "graph" and GRAPHS[dsc["p"][0] - 1][0] == "calls_below_const"
+                and dsc["p"][1] ** dsc["p"][2] >= 2 ** 32)
+    if nparam < 2 * len(TP_PLACES) or ndeep < 2:
+        raise vlib.ToolError("type paths `Generic.Param` (%d) / reference graphs with >= 2^32 paths below a constant (%d) "
+                             "are missing from the generated cases" % (nparam, ndeep))
+    stats["type_path_cases"] = {"places": len(TP_PLACES), "names": len(TP_NAMES), "argument_forms": len(TP_ARGS),
+                                "max_segments": fam_now["tplen"], "generic_param_paths": nparam,
+                                "outcomes_by_place": {k: v for k, v in sorted(byfam.items()) if k.startswith("tpath:")}}
+    stats["reference_graph_cases"] = {"shapes": [g for g, _ in GRAPHS], "max_width_by_shape": GRAPH_SHAPE_WIDTH,
+                                      "depths": fam_now["gdepths"], "max_items": GRAPH_MAXITEMS,
+                                      "graphs_with_2^32_paths_below_a_constant": ndeep, "slowest_graph_ms": totals.get("graph_slow", 0),
+                                      "outcomes_by_shape": {k: v for k, v in sorted(byfam.items()) if k.startswith("graph:")}}
     stats["inputs_by_family"] = fam_count
     stats["descriptors"] = len(descs)
     stats["distinct_inputs"] = totals["distinct"]
@@ -1138,6 +1319,11 @@ def totality_slice(cases, meta, ev, verd, outcomes, totals, picked):
             key = r["outcome"] + (":" + "+".join(sorted(set(r.get("kinds", [])))) if r["outcome"] == "err" else "")
             totals["slow"] = max(totals["slow"], r.get("ms", 0))
         outcomes[key] = outcomes.get(key, 0) + 1
+        if meta[i][0].startswith(("tpath:", "graph:")):
+            byfam = totals.setdefault("by_family", {}).setdefault(meta[i][0], {})
+            byfam[key] = byfam.get(key, 0) + 1
+            if meta[i][0].startswith("graph:") and oc == "returned":
+                totals["graph_slow"] = max(totals.get("graph_slow", 0), res["r"].get("ms", 0))
         fam = meta[i][0].split(":")[0]
         if fam not in picked and oc == "returned" and len(json.dumps(case)) < 400:
             picked[fam] = {"family": meta[i][0], "input": case, "outcome": key, "head": res["r"].get("head", "")}
@@ -1210,7 +1396,9 @@ def run(tier):
     ev.rule = ("cases = (a) abstract strings enumerated by TLC from Lexer.tla, each concretised with several "
                "representatives per class and lexed by the real lexer, (b) compiler inputs enumerated by MCTotality "
                "(token sequences in 6 contexts, mutants of 10 seed programs, ill-typed programs, nesting <= 64, module "
-               "trees in memory and on disk, string/f-string literal bodies of <= 3 ingredients, infinite-type programs), each compiled and its report rendered twice by the real crate; distinct = "
+               "trees in memory and on disk, string/f-string literal bodies of <= 3 ingredients, infinite-type programs, import "
+               "statements, type paths over the declared names of a package at every place a type is written, layered "
+               "reference graphs of <= 80 items), each compiled and its report rendered twice by the real crate; distinct = "
                "distinct concrete source text / file tree; non-trivial = the lexer run has at least one token, resp. "
                "the input is not blank")
     import time
@@ -1232,6 +1420,8 @@ def run(tier):
         "nesting depth of generated inputs <= 64 (documented limit); the compiler runs on a thread with a 64 MiB stack, so "
         "only unbounded recursion overflows it",
         "a hang is 10 s without progress for inputs that otherwise compile in well under 100 ms",
+        "reference graphs: w items per layer, d layers, w * d <= 80; record-type graphs only as chains (w = 1): layered "
+        "record types with w >= 2 take exponential time on the unchanged tree (TypeInfo::convert), reported separately",
         "the f-string scanner (f_string_part) is specified and model checked but roto::verif::lex stops at an f-string start: "
         "it is bound to the code only through the compile runs (f-string seeds, mutants and token sequences)",
         "FileTree values are built with the public constructors (test_file, file_spec, read); a FileTree literal with "
